@@ -1605,6 +1605,21 @@ class Kconfig(object):
 
                 value_is_default = False
 
+            if replace:
+                # If we're replacing the configuration, unset the symbols that
+                # didn't get set. This has to happen before the special cases
+                # below: they evaluate symbols and choices, and user values or
+                # choice selections left over from the previous configuration
+                # would leak into the resolution of the stored defaults.
+
+                for sym in self.unique_defined_syms:
+                    if not sym._was_set:
+                        sym.unset_value()
+
+                for choice in self.unique_choices:
+                    if not choice._was_set:
+                        choice.unset_value()
+
             #############################################
             # Done setting the values. Set special cases:
             # 1) Choice symbols with user-set value
@@ -1672,18 +1687,6 @@ class Kconfig(object):
 
             for choice in self.unique_choices:
                 choice._invalidate()
-
-        if replace:
-            # If we're replacing the configuration, unset the symbols that
-            # didn't get set
-
-            for sym in self.unique_defined_syms:
-                if not sym._was_set:
-                    sym.unset_value()
-
-            for choice in self.unique_choices:
-                if not choice._was_set:
-                    choice.unset_value()
 
         if self.print_report or self.report.status == REPORT_STATUS_ERROR:
             self.report.print_report()
